@@ -536,7 +536,11 @@ fn first_case(sink: &mut Sink, run: usize, auth_first: bool, inj: &Value) {
         _ => {
             if let Some(pk) = session::packet_from_json(&s, &inj["pk"]) {
                 let b = mqtt::encode(&pk, inj["form"].as_u64().unwrap_or(9) as u8);
-                if let Ok(d) = mqtt::decode(&b) {
+                if let Ok(mut d) = mqtt::decode(&b) {
+                    // what a refusal exposes: reason string, server reference, user properties (capabilities are not part of it)
+                    if d.t == mqtt::CONNACK {
+                        d.props.retain(|p| [0x1f, 0x1c, 0x26].contains(&p.id));
+                    }
                     let ab = d.abs();
                     x = ab["x"].as_str().unwrap_or("").to_string();
                     rc = ab["rc"].as_u64().unwrap_or(0);
@@ -560,6 +564,16 @@ pub fn first(a: &HashMap<String, String>) -> i32 {
     let mut cases: Vec<Value> = vec![json!({"k": "EOF"}), json!({"k": "ERR"})];
     for rc in CONNACK_REASONS {
         for props in [json!([]), json!([[0x1f, "because"], [0x26, "k", "v"]]), json!([[0x1c, "other.example"], [0x1f, "moved"]])] {
+            cases.push(json!({"k": "CONNACK", "pk": {"t": "CONNACK", "rc": rc, "props": props}}));
+        }
+        // capability properties: a refusal may announce anything (also "no subscription identifiers" - only the SUCCESSFUL
+        // CONNACK saying so meets the documented assertion), an acceptance everything but that
+        let mut caps = vec![json!([[0x21, 5], [0x27, 100], [0x24, 1], [0x25, 0]]), json!([[0x28, 0], [0x2a, 0], [0x22, 3], [0x13, 30]]), json!([[0x29, 1], [0x12, "assigned"]])];
+        if rc >= 0x80 {
+            caps.push(json!([[0x29, 0]]));
+            caps.push(json!([[0x1f, "no"], [0x29, 0], [0x28, 0]]));
+        }
+        for props in caps {
             cases.push(json!({"k": "CONNACK", "pk": {"t": "CONNACK", "rc": rc, "props": props}}));
         }
     }
@@ -1010,6 +1024,121 @@ pub fn sidwrap(a: &HashMap<String, String>) -> i32 {
 }
 
 // ---------------------------------------------------------------------------------------------
+// C07 / C08 with many overlapping subscriptions: one PUBLISH carries the identifiers of 1..9 subscriptions (each made by its
+// own subscribe() call), in ascending, descending and rotated order, before and after some of the streams were dropped.
+
+pub fn manysids(a: &HashMap<String, String>) -> i32 {
+    let mut sink = Sink::new(a);
+    let seed = seed_of(a);
+    for n in 1..=9usize {
+        for dropset in 0..3usize {
+            let run = match sink.mine() {
+                Some(x) => x,
+                None => continue,
+            };
+            let mut steps = vec![reset("manysids", None, None)];
+            for k in 1..=n {
+                steps.push(json!({"a": "call", "op": k, "h": 0, "spec": {"kind": "sub", "filters": [{"f": format!("f/{}", k), "qos": 2}]}}));
+                steps.push(settle_wake());
+                steps.push(json!({"a": "pkt", "pk": {"t": "SUBACK", "id": {"op": k}, "rcs": [2]}}));
+                steps.push(settle_wake());
+            }
+            let asc: Vec<usize> = (1..=n).collect();
+            let desc: Vec<usize> = (1..=n).rev().collect();
+            let rot: Vec<usize> = (1..=n).map(|i| (i + n / 2) % n + 1).collect();
+            let mut msg = 0usize;
+            let mut publish_all = |steps: &mut Vec<Value>| {
+                for (oi, order) in [&asc, &desc, &rot].iter().enumerate() {
+                    msg += 1;
+                    let qos = ((msg + oi + dropset) % 3) as u8;
+                    let sids: Vec<Value> = order.iter().map(|k| json!({"sub": k})).collect();
+                    steps.push(json!({"a": "pkt", "pk": {"t": "PUBLISH", "qos": qos, "id": 20 + msg as u16, "dup": 0, "topic": format!("m/{}", msg), "payload": format!("p{}", msg), "sids": sids}}));
+                    if qos == 2 {
+                        // re-delivery before the release (with and without DUP): acknowledged again, yielded to nobody again
+                        steps.push(settle_wake());
+                        steps.push(json!({"a": "pkt", "pk": {"t": "PUBLISH", "qos": 2, "id": 20 + msg as u16, "dup": (msg % 2) as u8, "topic": format!("m/{}", msg), "payload": format!("p{}", msg), "sids": order.iter().map(|k| json!({"sub": k})).collect::<Vec<Value>>()}}));
+                        steps.push(settle_wake());
+                        steps.push(json!({"a": "pkt", "pk": {"t": "PUBREL", "id": 20 + msg as u16, "rc": 0}}));
+                    }
+                    steps.push(settle_wake());
+                }
+            };
+            publish_all(&mut steps);
+            let dropped: Vec<usize> = match dropset {
+                0 => vec![],
+                1 => vec![1, n],
+                _ => (1..=n).filter(|k| k % 2 == 0).collect(),
+            };
+            for k in dropped {
+                steps.push(json!({"a": "drop", "t": "st", "k": k}));
+            }
+            publish_all(&mut steps);
+            publish_all(&mut steps);
+            steps.push(settle());
+            sink.run_script(run, steps, seed);
+        }
+    }
+    sink.finish();
+    0
+}
+
+// ---------------------------------------------------------------------------------------------
+// C11 / C05 with operations started before connect() has completed: the handle exists as soon as the Context does, requests
+// wait in the channel and are written once run() serves the connection. Identifiers handed out before and after the
+// handshake must all differ while the operations are outstanding, whatever the CONNACK says (Session Present 0 or 1).
+
+pub fn earlyops(a: &HashMap<String, String>) -> i32 {
+    let mut sink = Sink::new(a);
+    let seed = seed_of(a);
+    let kinds = ["pub1", "sub", "pub2", "unsub", "ping"];
+    for nearly in 0..=4usize {
+        for rot in 0..kinds.len() {
+            for auth in [false, true] {
+                let run = match sink.mine() {
+                    Some(x) => x,
+                    None => continue,
+                };
+                let p = Params { fam: "earlyops".into(), r: Some(10), defer: true, auth, ..Default::default() };
+                let mut steps = vec![p.to_json()];
+                let spec_of = |k: usize, kind: &str| -> Value {
+                    match kind {
+                        "pub1" => pub_spec(k, 1, 2),
+                        "pub2" => pub_spec(k, 2, 2),
+                        "sub" => json!({"kind": "sub", "filters": [{"f": format!("f/{}", k), "qos": 1}]}),
+                        "unsub" => json!({"kind": "unsub", "filters": [{"f": format!("f/{}", k)}]}),
+                        _ => json!({"kind": "ping"}),
+                    }
+                };
+                let mut k = 0usize;
+                for i in 0..nearly {
+                    k += 1;
+                    steps.push(json!({"a": "call", "op": k, "h": 0, "spec": spec_of(k, kinds[(rot + i) % kinds.len()])}));
+                    steps.push(poll_op(k)); // first poll: identifiers allocated, request queued - nobody serves the channel yet
+                }
+                let mut hs = p.to_json();
+                hs["a"] = json!("handshake");
+                steps.push(hs);
+                steps.push(poll_ctx());
+                for i in 0..4 {
+                    k += 1;
+                    steps.push(json!({"a": "call", "op": k, "h": 0, "spec": spec_of(k, kinds[(rot + nearly + i) % kinds.len()])}));
+                    steps.push(settle_wake());
+                }
+                // everything is still outstanding here; now the broker answers
+                for _ in 0..3 {
+                    steps.push(json!({"a": "autoack"}));
+                    steps.push(settle_wake());
+                }
+                steps.push(settle());
+                sink.run_script(run, steps, seed);
+            }
+        }
+    }
+    sink.finish();
+    0
+}
+
+// ---------------------------------------------------------------------------------------------
 // C03: framing under every chunking
 
 struct StreamPk {
@@ -1337,7 +1466,14 @@ fn sample_packets() -> Vec<(String, Vec<u8>)> {
     let mut au = Pk::new(mqtt::AUTH);
     au.rc = Some(0x18);
     au.props = vec![Prop { id: 0x15, v: PV::Str(b"m".to_vec()) }, Prop { id: 0x16, v: PV::Bin(b"dd".to_vec()) }, Prop { id: 0x1f, v: PV::Str(b"r".to_vec()) }, up("k", "v")];
-    v.push(("auth".into(), au, 9));
+    v.push(("auth".into(), au.clone(), 9));
+    // AUTH with the other reason codes (0x19 Re-authenticate is for clients to send: a server sending it is "unexpected", not fatal)
+    let mut au2 = au.clone();
+    au2.rc = Some(0x19);
+    v.push(("auth-reauth".into(), au2, 9));
+    let mut au3 = au;
+    au3.rc = Some(0x00);
+    v.push(("auth-success".into(), au3, 9));
     let mut p = in_publish(1, 7, 5, 1);
     p.props.push(Prop { id: 0x01, v: PV::Byte(1) });
     p.props.push(Prop { id: 0x02, v: PV::U32(9) });
@@ -1855,7 +1991,9 @@ pub fn endings(a: &HashMap<String, String>) -> i32 {
                 Some(x) => x,
                 None => continue,
             };
-            let m = if cause["c"] == "oversized-disc" { Some(34u32) } else { None };
+            // (a Maximum Packet Size is announced in every run: what is started after the context has gone fails with
+            // ContextExited whatever its size)
+            let m = if cause["c"] == "oversized-disc" { Some(34u32) } else { Some(64u32) };
             let mut steps = vec![reset("endings", Some(5), m)];
             let mut next = 1usize;
             let mut live_ops: Vec<usize> = vec![];
@@ -1995,6 +2133,8 @@ pub fn endings(a: &HashMap<String, String>) -> i32 {
             steps.push(settle());
             steps.push(json!({"a": "drop", "t": "ctx", "k": 0}));
             steps.push(json!({"a": "call", "op": next + 1, "h": 0, "spec": pub_spec(next + 1, 1, 1)}));
+            steps.push(json!({"a": "call", "op": next + 2, "h": 0, "spec": pub_spec(next + 2, (run % 3) as u8, 100)}));
+            steps.push(json!({"a": "call", "op": next + 3, "h": 0, "spec": {"kind": "sub", "filters": [{"f": "late/".repeat(20), "qos": 1}]}}));
             steps.push(settle());
             sink.run_script(run, steps, seed);
         }
